@@ -218,8 +218,14 @@ func (e *Eval) note(format string, a ...any) { e.Notes = append(e.Notes, fmt.Spr
 // Run evaluates fn as an entry point.  Parameters are bound from the context by type.
 func (e *Eval) Run(fn *ssa.Function) (res []AV, st State) {
 	args := make([]AV, len(fn.Params))
+	st0 := State{}
 	for i, p := range fn.Params {
 		args[i] = e.bindParam(p)
+		if sv := e.bindStruct(p.Type(), st0, 0); sv != nil {
+			if _, unknown := args[i].(TopV); unknown {
+				args[i] = sv
+			}
+		}
 		if sv, ok := args[i].(StrV); ok && sv.Kind == skRaw {
 			e.rawStrParams++
 		}
@@ -230,8 +236,53 @@ func (e *Eval) Run(fn *ssa.Function) (res []AV, st State) {
 			res, st = nil, nil
 		}
 	}()
-	rv, out := e.evalFunc(fn, args, nil, State{}, 0, true)
+	rv, out := e.evalFunc(fn, args, nil, st0, 0, true)
 	return rv, out
+}
+
+// bindStruct: the value of a parameter that is a struct of the module or a pointer to one (the
+// receiver of a method of a new type): one value per field — the context's language for a field
+// of type Language, unknown otherwise.  A pointer is taken to point to such a struct (a nil
+// receiver is the caller's mistake, not an argument the properties range over).
+func (e *Eval) bindStruct(t types.Type, st State, depth int) AV {
+	if depth > 2 {
+		return nil
+	}
+	ptr := false
+	if pt, ok := t.Underlying().(*types.Pointer); ok {
+		t, ptr = pt.Elem(), true
+	}
+	stt, ok := t.Underlying().(*types.Struct)
+	if !ok || stt.NumFields() > 64 || !e.inModuleType(t) {
+		return nil
+	}
+	elems := make([]AV, stt.NumFields())
+	for i := range elems {
+		ft := stt.Field(i).Type()
+		switch {
+		case e.isLanguage(ft):
+			if e.Ctx != nil && e.Ctx.Lang != nil {
+				elems[i] = *e.Ctx.Lang
+			} else {
+				elems[i] = TopInt("language field")
+			}
+		default:
+			if _, isPtr := ft.Underlying().(*types.Pointer); !isPtr {
+				if sv := e.bindStruct(ft, st, depth+1); sv != nil {
+					elems[i] = sv
+					continue
+				}
+			}
+			elems[i] = e.topOf(ft, "field "+stt.Field(i).Name()+" of a parameter")
+		}
+	}
+	if !ptr {
+		return VecV{Elems: elems}
+	}
+	o := e.newObj(okVec, nil, "struct "+t.String()+" (parameter)")
+	o.Struct = true
+	e.setContentFresh(st, o, VecC{Elems: elems})
+	return PtrV{O: o}
 }
 
 func (e *Eval) bindParam(p *ssa.Parameter) AV {
@@ -1276,6 +1327,47 @@ func (e *Eval) inModuleType(t types.Type) bool {
 	return false
 }
 
+// isTargetEquals: fn is `func (recv) Is(target error) bool { return target == G }` (or with the
+// operands the other way round) for a package-level variable G; G, else nil.
+func isTargetEquals(fn *ssa.Function) *ssa.Global {
+	if len(fn.Blocks) != 1 || len(fn.Params) != 2 {
+		return nil
+	}
+	var g *ssa.Global
+	var cmp *ssa.BinOp
+	for _, in := range fn.Blocks[0].Instrs {
+		switch x := in.(type) {
+		case *ssa.DebugRef:
+		case *ssa.UnOp:
+			if lg := loadedGlobal(x); lg != nil && g == nil {
+				g = lg
+			} else {
+				return nil
+			}
+		case *ssa.BinOp:
+			if cmp != nil || x.Op != token.EQL {
+				return nil
+			}
+			cmp = x
+		case *ssa.Return:
+			if cmp == nil || g == nil || len(x.Results) != 1 || x.Results[0] != ssa.Value(cmp) {
+				return nil
+			}
+			a, b := cmp.X, cmp.Y
+			if a != ssa.Value(fn.Params[1]) {
+				a, b = b, a
+			}
+			if a != ssa.Value(fn.Params[1]) || loadedGlobal(b) != g {
+				return nil
+			}
+			return g
+		default:
+			return nil
+		}
+	}
+	return nil
+}
+
 // customError: the conversion to an interface of a value whose (module) type implements
 // error.  The message is what its Error method returns for this very value (evaluated
 // abstractly); Unwrap giving a sentinel makes it a wrapper of that sentinel; an Is method
@@ -1291,23 +1383,35 @@ func (e *Eval) customError(fr *frame, x *ssa.MakeInterface, v AV, st State) (AV,
 	}
 	ms := e.P.SSA.MethodSets.MethodSet(t)
 	var errM, unwrapM, isM *ssa.Function
+	hasAs := false
 	for i := 0; i < ms.Len(); i++ {
 		switch ms.At(i).Obj().Name() {
 		case "Error":
 			errM = e.P.SSA.MethodValue(ms.At(i))
 		case "Unwrap":
 			unwrapM = e.P.SSA.MethodValue(ms.At(i))
-		case "Is", "As":
+		case "Is":
 			isM = e.P.SSA.MethodValue(ms.At(i))
+		case "As":
+			hasAs = true
 		}
 	}
 	if errM == nil || errM.Signature.Params().Len() != 0 || errM.Signature.Results().Len() != 1 {
 		return nil, false
 	}
-	if isM != nil {
+	// `func (e *T) Is(target error) bool { return target == ErrKind }`: the value matches the
+	// package-level error ErrKind and nothing else — what an error wrapping ErrKind matches
+	var isKind *ssa.Global
+	if isM != nil && !hasAs && unwrapM == nil {
+		isKind = isTargetEquals(isM)
+	}
+	if isM != nil && isKind == nil || hasAs {
 		return ErrV{Kind: ekUnknown, NonNil: true, From: base.String() + " (has an Is/As method)", Site: x}, true
 	}
 	out := ErrV{Kind: ekFresh, Site: x, NonNil: true}
+	if isKind != nil {
+		out.Kind, out.G = ekWrap, isKind
+	}
 	if len(errM.Blocks) > 0 && fr.depth < maxDepth-1 {
 		save := len(e.Events)
 		res, _ := e.evalFunc(errM, []AV{v}, nil, st.clone(), fr.depth+1, false)
